@@ -55,6 +55,11 @@ test_all_cases_are_as_expected if {
 	count(not_exp) == 0
 }
 
+test_empty_pattern_excludes_nothing if {
+	not config._exclude("", "p.rego")
+	not config._exclude("", "dir/p.rego")
+}
+
 rules_config_error := {"rules": {"test": {"test-case": {"level": "error"}}}}
 
 rules_config_ignore_delta := {"rules": {"test": {"test-case": {"ignore": {"files": ["p.rego"]}}}}}
